@@ -426,6 +426,7 @@ func runC03(p *an.Prog, r *an.Run, tier string) {
 
 	checkCutoff(p, r)
 	checkLowBalanceText(p, r)
+	checkErrorResultReported(p, r)
 }
 
 // checkLowBalanceText: what the refused client and the operator's log get to see is the error's text; it reports the
@@ -1622,6 +1623,59 @@ func checkBalanceReadErrors(p *an.Prog, r *an.Run) {
 					bad = append(bad, failPropagates(p, fn, c)...)
 					bad = append(bad, sentinelSwallowed(p, fn, c)...)
 				}
+			}
+			// the deposit is left out only for a balance that has no account (a node still on its trial balance): a
+			// successful return that did not pass the deposit read is controlled by "the balance's Account is empty"
+			var depReads []ssa.Instruction
+			for _, c := range an.Calls(m, false) {
+				if callee := c.Common().StaticCallee(); callee != nil && p.InRepo(callee) && callee.Signature.Results().Len() == 2 && isBigIntPtr(callee.Signature.Results().At(0).Type()) {
+					depReads = append(depReads, c.(ssa.Instruction))
+				}
+			}
+			if len(depReads) > 0 {
+				isDep := func(in ssa.Instruction) bool {
+					for _, d := range depReads {
+						if in == d {
+							return true
+						}
+					}
+					return false
+				}
+				an.AllInstrs(m, func(in ssa.Instruction) {
+					ret, ok := in.(*ssa.Return)
+					if !ok {
+						return
+					}
+					if cls, _ := returnClass(ret); cls != "nil" {
+						return
+					}
+					// reachable without the deposit read?
+					if an.PathAvoiding(m, nil, isDep, func(x ssa.Instruction) bool { return x == in }, nil) == nil {
+						return
+					}
+					okTrial := false
+					for _, cr := range ctrlRels(ret.Block()) {
+						for _, pair := range [][2]ssa.Value{{cr.L, cr.R}, {cr.R, cr.L}} {
+							x := pair[0]
+							if lx, isLen := an.LenOf(x); isLen {
+								x = lx
+							}
+							fv := an.FieldOf(stripLoad(stripConv(x)))
+							if fv == nil || fv.Name() != "Account" {
+								continue
+							}
+							if k, isK := an.ConstInt(pair[1]); isK && k == 0 && cr.Op == token.EQL {
+								okTrial = true
+							}
+							if cs, isS := an.ConstString(pair[1]); isS && cs == "" && cr.Op == token.EQL {
+								okTrial = true
+							}
+						}
+					}
+					if !okTrial {
+						bad = append(bad, "the balance is returned at "+p.Pos(ret.Pos())+" without the deposit although that is not confined to balances without an account: a funded wallet is judged on its credit alone (refused at the minimum, paid out short)")
+					}
+				})
 			}
 			r.Check(len(bad) == 0, "balance-errors", an.FuncName(m), m.Pos(), "a failed balance source is reported, never replaced by a partial balance", "%s", strings.Join(dedup(bad), "; "))
 		}
